@@ -148,6 +148,8 @@ MUTANTS = [
      'edits': [(VM, '''            Err(error) => {
                 let exc_object = self.new_root_obj_err_from_error(error);
                 self.poke(0, Value::ObjInstance(exc_object.as_gc()));
+                let ip = self.ip;
+                self.active_fiber_mut().record_error_site(ip);
                 self.unwind_stack()?;
             }''', '''            Err(error) => {
                 return Err(error);
@@ -251,7 +253,7 @@ MUTANTS = [
     {'name': 'N1 new per-run counter on Vm never reset', 'prop': 'C15', 'expect': 'N1 / Vm.pending_throws',
      'edits': [(VM, "    handling_exception: bool,\n}", "    handling_exception: bool,\n    pending_throws: usize,\n}"),
                (VM, "            handling_exception: false,\n        };", "            handling_exception: false,\n            pending_throws: 0,\n        };"),
-               (VM, "        self.handling_exception = true;\n        self.active_fiber_mut().error_ip = Some(self.ip);", "        self.handling_exception = true;\n        self.pending_throws += 1;\n        self.active_fiber_mut().error_ip = Some(self.ip);")]},
+               (VM, "        self.handling_exception = true;\n        let ip = self.ip;", "        self.handling_exception = true;\n        self.pending_throws += 1;\n        let ip = self.ip;")]},
     {'name': 'N1 fiber reset only on the success path of execute', 'prop': 'C15', 'expect': 'N1 / Vm.ip',
      'edits': [(VM, "        self.ip = ptr::null();\n        self.fiber = None;", "        if args.is_empty() {\n            self.ip = ptr::null();\n        }\n        self.fiber = None;"),
                (VM, "        self.active_chunk = prev_chunk;\n        self.active_module = prev_module;\n        self.ip = new_ip;", "        self.active_chunk = prev_chunk;\n        self.active_module = prev_module;\n        if !new_ip.is_null() {\n            self.ip = new_ip;\n        }")]},
@@ -492,11 +494,23 @@ fn string_from_utf8''')]},
      'edits': [(OBJ, "impl GcManaged for ObjVecIter {\n    fn mark(&self) {\n        self.iterable.mark();\n    }\n\n    fn blacken(&self) {\n        self.iterable.blacken();\n    }",
                 "impl GcManaged for ObjVecIter {\n    fn mark(&self) {}\n\n    fn blacken(&self) {}")]},
     {'name': 'L6 return_impl no longer forgets a throw site in the returning function (regression of bd46585)', 'prop': 'C17', 'expect': 'L6 / return_impl updates error_ip',
-     'edits': [(VM, "        let recorded_site = self.active_fiber().error_ip;\n        if let (Some(frame), Some(site)) = (returning, recorded_site) {\n            if frame.closure.function.chunk.code.as_ptr_range().contains(&site) {\n                self.active_fiber_mut().error_ip = None;\n            }\n        }\n",
+     'edits': [(VM, "        if returning.is_some() && self.active_fiber().error_depth > self.active_fiber().frames.len() {\n            self.active_fiber_mut().error_ip = None;\n        }\n",
                 "        let _ = returning;\n")]},
-    {'name': 'L4 unwind_stack no longer re-points the throw site when frames are discarded (regression of c99966a)', 'prop': 'C17', 'expect': 'L4 / error_ip is given an address only by',
+    {'name': 'L4 unwind_stack no longer re-points the throw site when frames are discarded (regression of c99966a)', 'prop': 'C17', 'expect': 'L4 / unwind_stack re-points the site',
      'edits': [(VM, "            let call_site = self.active_fiber().frames[handler.frame_count - 1].ip;\n            self.active_fiber_mut().error_ip = Some(call_site);\n",
                 "            let _call_site = self.active_fiber().frames[handler.frame_count - 1].ip;\n")]},
+    {'name': 'L4 try_handle_error stops recording the raise site (regression of 6ca1d5b)', 'prop': 'C17', 'expect': 'L4 / try_handle_error records the current instruction',
+     'edits': [(VM, "        // another function's code.\n        let ip = self.ip;\n        self.active_fiber_mut().record_error_site(ip);\n        self.unwind_stack()", "        // another function's code.\n        self.unwind_stack()")]},
+    {'name': 'L10 unwind_stack moves the site but not its depth', 'prop': 'C17', 'expect': 'L10 / unwind_stack stores the depth with the site',
+     'edits': [(VM, "            self.active_fiber_mut().error_depth = handler.frame_count;\n", "")]},
+    {'name': 'L3 newline after a backslash uncounted again (regression of c0b4111)', 'prop': 'C17', 'expect': 'L3 / Scanner::string / advance() is preceded by a look-ahead',
+     'edits': [(SCAN, "                            let is_newline = s == \"\\n\";\n                            let token = self.error_token(\"Invalid escape sequence.\");\n                            if is_newline {\n                                self.line += 1;\n                            }\n                            return token;", "                            return self.error_token(\"Invalid escape sequence.\");")]},
+    {'name': 'T10 parked escape error dropped at an interpolation again (regression of ca6eca8)', 'prop': 'C03', 'expect': 'T10 / yarel::scanner::Scanner::string',
+     'edits': [(SCAN, "                    self.parantheses.push(1);\n                    if let Some(msg) = error {\n                        return self.error_token(msg);\n                    }\n", "                    self.parantheses.push(1);\n")]},
+    {'name': 'S8 reset_stack closes the active fiber only (regression of a2081e8)', 'prop': 'C06', 'expect': 'S8 / ',
+     'edits': [(VM, "            next = borrowed_fiber.caller;\n", "            next = None;\n")]},
+    {'name': 'M7 import registers the module before it knows a frame is left (regression of 1342e1d)', 'prop': 'C14', 'expect': 'M7 / start_import_impl registers the module only behind',
+     'edits': [(VM, "        if self.active_fiber().frames.len() == common::FRAMES_MAX {\n            let err = error!(ErrorKind::IndexError, \"Stack overflow.\");\n            return self.try_handle_error(err);\n        }\n\n        let source = match", "        let source = match")]},
     {'name': 'L4 a native error path records a throw site', 'prop': 'C17', 'expect': 'L4 / error_ip is given an address only by',
      'edits': [(VM, "    fn call_impl(&mut self) -> Result<(), Error> {\n        let arg_count = self.read_byte() as usize;",
                 "    fn call_impl(&mut self) -> Result<(), Error> {\n        self.active_fiber_mut().error_ip = Some(self.ip);\n        let arg_count = self.read_byte() as usize;")]},
